@@ -18,7 +18,7 @@ TRUSTED = ['cbmc 6.11.0 C++ front end and SAT back end',
            'range-for / auto / delete / io::stdout rewrite rules (must-fire)']
 ASSUMPTIONS = ['the comparator\'s tie-break on object addresses is replaced by a tie-break on ghost object ids (must-fire rule): any total order on distinct objects is a valid implementation choice',
                'histories: <= 3 reservations + optional slice + releases, then one operation (bounded); request sizes < 2^10 (quick) / 2^12 (thorough)',
-               'alignments enumerated: quick {128 -> 8, 8 -> 24}; thorough adds {1, 24, 4096}',
+               'alignments enumerated: quick {128 -> 8, 8 -> 128}; thorough adds {8 -> 24, 1, 24, 4096}',
                'virtual calls resolve to the Serial-mode pool']
 NOT_REACHED = ['memoryPool handle layer (one-line forwarders, covered for assertInitialized by C01 family step)',
                'longer histories, more than 4 live reservations', 'byte contents beyond one tracked byte per run (any byte: it is symbolic)']
@@ -29,7 +29,7 @@ def build(ctx, prop=None):
     other = 'C04' if prop == 'C03' else 'C03'
     unit, fns = poolunit.build_unit(ctx)
     src = unit + poolunit.HARNESS
-    aligns = [(128, 8), (8, 24)] if ctx.tier == 'quick' else [(128, 8), (8, 24), (1, 128), (24, 8), (4096, 128), (128, 4096)]
+    aligns = [(128, 8), (8, 128)] if ctx.tier == 'quick' else [(128, 8), (8, 128), (8, 24), (1, 128), (24, 8), (4096, 128)]
     bits = 10 if ctx.tier == 'quick' else 12
     opn = ['reserve', 'resize', 'shrinkToFit', 'setAlignment', 'release', 'slice']
     groups = []
@@ -41,7 +41,7 @@ def build(ctx, prop=None):
                 defines=['ALIGN=%d' % a, 'ALIGN2=%d' % a2, 'SZ_BITS=%d' % bits, 'VERIF_OP=%d' % op],
                 min_obligations=10, functions=fns, canary='CANARY', canary_label='canary', strength='bounded',
                 bound='histories of <= 3 reservations (+ slice, + releases) then one %s; sizes < 2^%d; alignment %d' % (name, bits, a),
-                object_bits=10, timeout=1500, ignore=(r': (%s|C05): ' % other) if prop != 'C04' else (r': %s: ' % other),
+                object_bits=10, timeout=2400, ignore=(r': (%s|C05): ' % other) if prop != 'C04' else (r': %s: ' % other),
                 checks=['--bounds-check', '--pointer-check', '--div-by-zero-check', '--undefined-shift-check', '--no-signed-overflow-check'],
                 param='alignment %d, operation %s' % (a, name), replay=replay_C03.replay))
     return groups
